@@ -832,6 +832,7 @@ class ProtocolMonitor:
         self.bodies = {}  # (conn id, corr) -> (req, response body)
         self.fault_seen = {}  # client -> seq at which an injected error reply was delivered
         self.fault_iter = {}  # client -> loop iteration count at that moment
+        self.fault_iters_all = {}  # client -> iteration counts of all such deliveries
         self.injected = {}  # (conn id, corr) -> True for replies produced by reply_error
         self.recs = {}  # client -> list of Rec of the current transaction window
         self.writes = []  # (seq, client, api)
@@ -880,9 +881,12 @@ class ProtocolMonitor:
             return
         req, body = ent
         cid = req.client_id
-        if self.injected.pop((conn.id, tag[1]), None) and cid not in self.fault_seen:
-            self.fault_seen[cid] = self.world.log.seq
-            self.fault_iter[cid] = self.world.loop.iters
+        if self.injected.pop((conn.id, tag[1]), None):
+            # (every delivery: with a missing Write ACL each transaction gets its own error reply)
+            self.fault_iters_all.setdefault(cid, []).append(self.world.loop.iters)
+            if cid not in self.fault_seen:
+                self.fault_seen[cid] = self.world.log.seq
+                self.fault_iter[cid] = self.world.loop.iters
         if req.name == "AddPartitionsToTxn":
             for t in body["results"]:
                 for p in t["results"]:
@@ -1185,6 +1189,10 @@ def oracle_c16(plan, world, cl, obs, mon):
             rel = "after"
         else:
             rel = "during"
+        # a later error reply of the same kind (the ACL is still missing in the next
+        # transaction) delivered while this call runs: in progress at that moment, too
+        later_during = any(f > (fault_it or 0) and c["it0"] - GRACE <= f <= c["it1"]
+                           for f in mon.fault_iters_all.get(spec["id"], []))
         if st == "FATAL":
             # a call already surfaced the fatal error
             if c["op"] == "ctx_exc":
@@ -1205,7 +1213,9 @@ def oracle_c16(plan, world, cl, obs, mon):
                 if c["outcome"] != "raised" or c["exc"] not in ABORTABLE_EXC:
                     viol("commit_did_not_raise_abortable_error", c)
             elif c["op"] in ("abort", "ctx_exc"):
-                if c["outcome"] != "ok":
+                if c["outcome"] != "ok" and later_during and c["exc"] in ABORTABLE_EXC:
+                    world.probe("abort_overtaken_by_another_abortable_error")
+                elif c["outcome"] != "ok":
                     viol("abort_failed_after_abortable_error", c)
             elif c["outcome"] != "raised":
                 viol("call_accepted_in_abortable_state", c)
@@ -1232,7 +1242,9 @@ def oracle_c16(plan, world, cl, obs, mon):
             else:
                 no_effect(c)
         else:
-            if c["outcome"] != "ok" and fc == "retriable" and c["op"].startswith("send") \
+            if c["outcome"] != "ok" and later_during and c["exc"] in ABORTABLE_EXC:
+                world.probe("call_overtaken_by_another_abortable_error")
+            elif c["outcome"] != "ok" and fc == "retriable" and c["op"].startswith("send") \
                     and c["exc"] in ("UnknownTopicOrPartitionError", "KafkaTimeoutError"):
                 # documented: send() gives up after request_timeout_ms when it cannot get the
                 # topic's metadata / room in the accumulator (here: its Metadata request queued
